@@ -44,7 +44,9 @@ def spec(tier, seed):
     from . import _mir
     return {
         "instances": inst,
-        "mir_vcs": [{"name": "find_closest_match, any length: ranges 0..(a+b) / 0..min(i+1,a); exhausted => (a.len, b.len); matches inside and on the diagonal", "function": "find_closest_match", "target": "lib",
+        "mir_vcs": [{"name": "write_file_patch_header_to: a mode the file patch carries gets its line, whatever the other side's mode is", "function": "write_file_patch_header_to", "target": "lib",
+                     "run": lambda f, v, w: _mir.vc_header_writes_modes(f, v, w)},
+                    {"name": "find_closest_match, any length: ranges 0..(a+b) / 0..min(i+1,a); exhausted => (a.len, b.len); matches inside and on the diagonal", "function": "find_closest_match", "target": "lib",
                      "run": lambda f, v, w: _mir.vc_closest_match_space(f, v, w)},
                     {"name": "start lines survive write-then-parse for every value (write_header_to x parse_hunk::target_line)", "function": "write_header_to", "target": "lib",
                      "run": lambda f, v, w: _mir.vc_start_line_roundtrip(f, v, w)}],
@@ -68,4 +70,7 @@ def spec(tier, seed):
 
 def replay_candidate(v, work, log):
     from .. import replay
+    if "write_file_patch_header_to" in (v.get("name") or ""):
+        from .. import scenarios
+        return scenarios.replay_for("C12", v, work, log)
     return replay.replay_by_sweep("C12", v, work, log, module="parser", testname="replay_sweep_writer")
